@@ -24,8 +24,8 @@ Diff(e, m, b) ==
 
 Apply(e) ==
   CASE e.op = "upload"      -> Upload(e.g)
-    [] e.op = "createfiles" -> CreateFiles(e.n, e.g, e.s)
-    [] e.op = "createfrom"  -> CreateFrom(e.n, e.m, e.s)
+    [] e.op = "createfiles" -> CreateFiles(e.n, e.g, e.s, e.tp)
+    [] e.op = "createfrom"  -> CreateFrom(e.n, e.m, e.s, e.tp)
     [] e.op = "copy"        -> Copy(e.m, e.n)
     [] e.op = "delete"      -> Delete(e.n)
     [] e.op = "pull"        -> Pull(e.n, e.v)
